@@ -21,6 +21,7 @@ noncomputable instance instRScalarReal : RScalar ℝ where
   log := Real.log
   log1p x := Real.log (1 + x)
   expm1 x := Real.exp x - 1
+  expm1Ovf _ := false
   sqrt := Real.sqrt
   lt a b := decide (a < b)
   beq a b := decide (a = b)
